@@ -91,6 +91,14 @@ class FitWorld(object):
             from kafe2.fit.xy.cost import XYCostFunction_Chi2
 
             cost = XYCostFunction_Chi2(axes_to_use="y")
+        elif cost == "gauss_approximation:nodet":  # Gaussian approximation as a cost function object with a non-default flag
+            from kafe2.fit.histogram.cost import HistCostFunction_GaussApproximation
+            from kafe2.fit.indexed.cost import IndexedCostFunction_GaussApproximation
+            from kafe2.fit.xy.cost import XYCostFunction_GaussApproximation
+
+            cost = {"xy": XYCostFunction_GaussApproximation, "indexed": IndexedCostFunction_GaussApproximation, "hist": HistCostFunction_GaussApproximation}[self.ftype](
+                add_determinant_cost=False
+            )
         with warnings.catch_warnings():
             warnings.simplefilter("ignore")
             if self.ftype == "xy":
@@ -344,6 +352,55 @@ class FitWorld(object):
         self.fit = None
 
     # -- observation of the real fit ----------------------------------------------------
+    def eval_grid(self):
+        """user points for the evaluation methods: inside and outside the data range, and NOT as many as there are data points"""
+        if self.ftype == "xy":
+            x = np.asarray(self._data_arrays(self.data_variant)[0], dtype=float)
+            return np.linspace(x.min() - 0.5 * self.val_xscale(), x.max() + 0.5 * self.val_xscale(), 5)
+        return np.linspace(0.2, 5.7, 7)
+
+    def val_xscale(self):
+        x = np.asarray(self.val.x, dtype=float)
+        return float(np.median(np.abs(np.diff(x)))) or 1.0
+
+    CALLS = {
+        "xy": ["eval_model_function", "eval_model_function_derivative_by_parameters", "error_band"],
+        "indexed": [],
+        "hist": ["eval_model_function_density"],
+        "unbinned": ["eval_model_function"],
+    }
+
+    def call_names(self):
+        """observable names 'call:<method>:<arguments>' of this fit type; arguments: grid = x at eval_grid(), pars = explicit
+        model_parameters (the point P2), grid+pars = both"""
+        out = []
+        for m in self.CALLS[self.ftype]:
+            out.append("call:%s:grid" % m)
+            if m != "error_band":
+                out.append("call:%s:grid+pars" % m)
+                if self.ftype in ("xy", "unbinned"):
+                    out.append("call:%s:pars" % m)
+        return out
+
+    def call_observable(self, name):
+        _, meth, spec = name.split(":")
+        kw = {}
+        if "grid" in spec:
+            kw["x"] = self.eval_grid()
+        if "pars" in spec:
+            kw["model_parameters"] = [float(x) for x in self.point("P2").values()]
+        return getattr(self.fit, meth)(**kw)
+
+    def ref_call(self, name, pv=None):
+        """reference value of the evaluation methods that are plain model evaluations (None where no closed form is kept here)"""
+        _, meth, spec = name.split(":")
+        if meth not in ("eval_model_function", "eval_model_function_density"):
+            return None
+        pv = self.pv if pv is None else pv
+        args = [float(x) for x in self.point("P2").values()] if "pars" in spec else [pv[p] for p in self.par_names]
+        x = self.eval_grid() if "grid" in spec else (self.ref_data()[0] if self.ftype == "xy" else self.ref_data()[1])
+        return self.fn(x, *args)
+
     def observe(self, name):
         """Public-API observation, canonicalised to plain python (lists/floats/None) or ('EXC', type)."""
         f = self.fit
@@ -358,7 +415,9 @@ class FitWorld(object):
                     return canon(f.get_result_dict())
                 if name.endswith(":none"):  # only whether the quantity is reported at all
                     return getattr(f, name[:-5]) is None
-                if name == "model_property":  # the property called `model` as it is (for an xy fit: x and y rows)
+                if name.startswith("call:"):  # a public evaluation METHOD with arguments (see call_observable)
+                    v = self.call_observable(name)
+                elif name == "model_property":  # the property called `model` as it is (for an xy fit: x and y rows)
                     v = f.model
                 elif name == "model":
                     v = f.y_model if self.ftype == "xy" else f.model
